@@ -216,6 +216,22 @@ func runC13Case(tier string, seed uint64, idx int, keepDir string) *CaseResult {
 				days = append(days, d)
 			}
 		}
+		// a radiation sensor that fails for a while (the sunshine hours stand in) and single missing rain records: the
+		// sentinel in the required columns, on interior days of a year
+		if r.Bool(0.5) {
+			for i := range days {
+				if doy := days[i].D.DOY(); doy < 3 || doy > 362 {
+					continue
+				}
+				if a.Weather.HasSun && r.Bool(0.04) {
+					days[i].NoneGlob = true
+				}
+				if r.Bool(0.01) {
+					days[i].NonePrecip = true
+				}
+			}
+			res.Cov["weather_pairs_with_sentinels_in_required_columns"]++
+		}
 		a.Weather.Days = days
 		if withDOY {
 			a.Weather.Layout = 1
